@@ -601,6 +601,12 @@ class DiscreteStridedIntervalSet(StridedInterval):
             if BoolResult.is_true(si_ == si):
                 return dsis
 
+        if si in dsis._si_set:
+            # A member with the same bounds is already there (the set compares by value). The join stands for either of the
+            # two, so it must not keep the identity (name) of that member: `eq` takes intervals of equal name for equal.
+            dsis._si_set.discard(si)
+            si = si.nameless_copy()
+
         dsis._si_set.add(si)
         dsis._update_bounds(si)
 
